@@ -40,6 +40,17 @@ def run_one(name, only=None, tier="quick"):
             outs[c] = {"exit": q.returncode, "first_violation": first[0].split(" clause=")[-1] if first else None,
                        "summary": [l for l in txt.splitlines() if l.startswith(c + " tier=")][-1:] or txt.splitlines()[-2:]}
         res["checks"] = outs
+        # the replay command must reproduce the first violation on the changed tree and report nothing on /repo
+        rdir = os.path.join(work, "replays", prop)
+        files = sorted(glob.glob(os.path.join(rdir, "*.json"))) if os.path.isdir(rdir) else []
+        if files:
+            r1 = subprocess.run([os.path.join(core.VERIF, "check"), "replay", files[0]], env=env, stdout=subprocess.PIPE, stderr=subprocess.STDOUT, cwd=core.VERIF)
+            env2 = dict(env)
+            env2.pop("VERIF_REPO")
+            r2 = subprocess.run([os.path.join(core.VERIF, "check"), "replay", files[0]], env=env2, stdout=subprocess.PIPE, stderr=subprocess.STDOUT, cwd=core.VERIF)
+            res["replay"] = {"on_changed_tree_exit": r1.returncode, "on_repo_exit": r2.returncode,
+                             "ok": r1.returncode == 1 and r2.returncode == 0,
+                             "tail": (r1.stdout.decode("utf-8", "replace").splitlines()[-1:] + r2.stdout.decode("utf-8", "replace").splitlines()[-1:])}
         res["wall_s"] = round(time.time() - t, 1)
         res["result"] = "caught" if any(o["exit"] == 1 and o["first_violation"] for o in outs.values()) else "MISSED"
         return res
@@ -56,7 +67,8 @@ def main(a):
         r = run_one(n, only, a.tier)
         if r:
             out.append(r)
-            print("%-28s %-4s %s %s" % (r["name"], r["property"], r["result"], {c: (o["exit"], o["first_violation"]) for c, o in r.get("checks", {}).items()}))
+            print("%-28s %-4s %s %s replay=%s" % (r["name"], r["property"], r["result"], {c: (o["exit"], o["first_violation"]) for c, o in r.get("checks", {}).items()},
+                                                    r.get("replay", {}).get("ok")))
             sys.stdout.flush()
     d = os.path.join(core.VERIF, "selftest")
     os.makedirs(d, exist_ok=True)
